@@ -19,11 +19,11 @@ echo "### build with patch (feature verif)"; timeout 2400 cargo build --offline 
 echo "### demo WITH patch"; OUT1=$(run_demo); echo "$OUT1" | grep -E "^test result|error(\[|:)" | head -5
 echo "### repository tests WITH patch"
 rm -f tests/seed_demo.rs
-T=$(timeout 3000 unshare -n bash -c "ip link set lo up; cargo test --workspace --no-fail-fast --offline" 2>&1 | grep -E "^test result|^test .* FAILED")
+T=$(timeout 1200 unshare -n bash -c "ip link set lo up; cargo test --workspace --no-fail-fast --offline" 2>&1 | grep -E "^test result|^test .* FAILED")
 echo "$T"
 if echo "$T" | grep -q "FAILED"; then
   echo "### retry failing targets once (fixed ports may collide with other runs)"
-  T2=$(timeout 3000 unshare -n bash -c "ip link set lo up; cargo test --workspace --no-fail-fast --offline" 2>&1 | grep -E "^test result|^test .* FAILED"); echo "$T2"; T="$T2"
+  T2=$(timeout 1200 unshare -n bash -c "ip link set lo up; cargo test --workspace --no-fail-fast --offline" 2>&1 | grep -E "^test result|^test .* FAILED"); echo "$T2"; T="$T2"
 fi
 git apply -R $S/patch.diff
 P0=$(echo "$OUT0" | grep -c "^test result: ok")
